@@ -1124,8 +1124,24 @@ def _norm(v):
     return v
 
 
+def _close(a, b):
+    if isinstance(a, list) and isinstance(b, list):
+        return len(a) == len(b) and all(_close(x, y) for x, y in zip(a, b))
+    if isinstance(a, dict) and isinstance(b, dict):
+        return a.keys() == b.keys() and all(_close(a[k], b[k]) for k in a)
+    if isinstance(a, float) or isinstance(b, float):
+        try:
+            import math
+
+            # exact rationals on the symbolic side vs IEEE doubles on the concrete side
+            return math.isclose(float(a), float(b), rel_tol=1e-9, abs_tol=1e-9)
+        except (TypeError, ValueError):
+            return a == b
+    return a == b
+
+
 def same_observations(a, b):
-    return _norm(a) == _norm(b)
+    return _close(_norm(a), _norm(b))
 
 
 class Concrete:
